@@ -106,7 +106,8 @@ func newC03World(rt *rapid.T) *c03World {
 	for i := 0; i < 4; i++ {
 		w.users = append(w.users, henv.MakeUser(fmt.Sprintf("c03-%d", i)))
 	}
-	for b := uint64(1); b <= 2; b++ {
+	// bridges 1 and 2 have outputs; bridge 3 exists and holds funds but has no output at all
+	for b := uint64(1); b <= 3; b++ {
 		if r := e.Deliver(ophosttypes.NewMsgCreateBridge(w.users[0].Str, henv.DefaultBridgeConfig(w.users[0].Str, w.users[1].Str, w.period))); !r.OK() {
 			panic(r.Err)
 		}
@@ -129,7 +130,11 @@ func newC03World(rt *rapid.T) *c03World {
 			if rapid.IntRange(0, 2).Draw(rt, "fromkind") == 0 {
 				from = w.users[rapid.IntRange(0, 3).Draw(rt, "fromuser")].Str // a string that is also a valid L1 address
 			}
-			ts = append(ts, wd{Bridge: b, Seq: seq[b], From: from, To: w.users[rapid.IntRange(0, 3).Draw(rt, "to")].Str,
+			lb := b
+			if b == 2 && rapid.IntRange(0, 5).Draw(rt, "leafForBridge3") == 0 {
+				lb = 3 // the proposer of bridge 2 commits a leaf that names bridge 3
+			}
+			ts = append(ts, wd{Bridge: lb, Seq: seq[b], From: from, To: w.users[rapid.IntRange(0, 3).Draw(rt, "to")].Str,
 				Denom: rapid.SampledFrom([]string{"uinit", "uusdc"}).Draw(rt, "denom"), Amount: uint64(rapid.IntRange(1, 1000).Draw(rt, "amt"))})
 			seq[b]++
 		}
@@ -407,7 +412,10 @@ func TestC03Rapid(t *testing.T) {
 			pos := rapid.IntRange(0, len(o.Tuples)-1).Draw(rt, "pos")
 			tu := o.Tuples[pos]
 			base := claimMsg(w.users[3].Str, tu, o, o.Index, pos)
-			if tu.Bridge != b {
+			if tu.Bridge == 3 {
+				// a leaf that names bridge 3, committed under bridge 2: the claim names bridge 3, which has no outputs
+				c.Class("claim-naming-a-bridge-without-outputs")
+			} else if tu.Bridge != b {
 				// the copied root on bridge 2: the honest claim names bridge 2 but the leaves commit to bridge 1
 				base.BridgeId = b
 			}
